@@ -1,4 +1,5 @@
 import AmqModel.Lemmas.Conn
+import AmqModel.Lemmas.ConnC13
 /-!
 # Lemmas for C08 (connection close handshake)
 
@@ -8,6 +9,8 @@ import AmqModel.Lemmas.Conn
 2. `writeLoop_wrote`: the bytes `write_to_stream` hands to the transport are a prefix of `out`.
 3. The close arms of `process` as equations (`process_serverClose_eq`, `process_closeOk_eq`).
 4. `drainSlots` notifies every slot (`drainSlots_go_spec`).
+5. The client's close request first takes what the channels have queued (fix D17):
+   `takeQueued_sends`, `takeAllQueued_sends`, `close_writes_queued_first`.
 -/
 namespace AmqModel.Conn
 open AmqModel.Collector
@@ -197,9 +200,9 @@ theorem shut_process (h : Shut o c) (f : Frame) (dc df : Bytes) : Shut o (proces
     · exact shut_processChannelMethod h _ _ _ _ _
     · exact shut_processChannelMethod h _ _ _ _ _
 
-theorem shut_processChannelMessage (h : Shut o c) (n : Nat) (m : Msg) :
-    Shut o (processChannelMessage c n m).1 := by
-  unfold processChannelMessage
+theorem shut_processPlainMessage (h : Shut o c) (n : Nat) (m : Msg) :
+    Shut o (processPlainMessage c n m).1 := by
+  unfold processPlainMessage
   split
   · exact shut_sealOut (shut_pushOut h _)
   · exact shut_pushOut h _
@@ -212,6 +215,12 @@ theorem shut_popFifo {c1 : Conn} {m : Msg} (h : Shut o c) {lid : Nat}
     (hp : popFifo c lid = some (m, c1)) : Shut o c1 := by
   obtain ⟨_, _, _, hse, hout, _, _⟩ := popFifo_spec hp
   exact h.same hse hout
+
+theorem shut_processChannelMessage (h : Shut o c) (n : Nat) (m : Msg) :
+    Shut o (processChannelMessage c n m).1 :=
+  processChannelMessage_ind (P := Shut o)
+    (fun _ n _ m _ h _ hp => shut_processPlainMessage (shut_popFifo h hp) n m)
+    (fun _ h' => shut_processPlainMessage h' n m) h
 
 theorem shut_drainFifo (h : Shut o c) (fuel n : Nat) : Shut o (drainFifo fuel c n).1 := by
   induction fuel generalizing c with
@@ -820,5 +829,185 @@ theorem drainSlots_go_spec (r : Reply) (m : CMsg) (all : List (Nat × Slot)) (l 
       have h2 : j ∉ rest.flatMap (fun p => p.2.consumers.map (·.2)) := fun e =>
         hj (by rw [List.flatMap_cons]; exact List.mem_append_right _ e)
       rw [i5 j h2, s7 j h1]
+
+/-! ## 5. The close request takes what the channels have queued first (fix D17) -/
+
+/-- The buffer of a submitted `.send` (nothing for the other requests). -/
+def Msg.sendBytes : Msg → Bytes
+  | .send b => b
+  | _ => []
+
+/-- The bytes channel `n` has queued, in submission order. -/
+def queuedOn (c : Conn) (n : Nat) : Bytes :=
+  match lookupN n c.slots with
+  | some slot => ((getLink c slot.lid).fifo.map Msg.sendBytes).flatten
+  | none => []
+
+/-- The bytes all open channels have queued: ascending channel ids, each queue in FIFO order. -/
+def queuedAll (c : Conn) : Bytes :=
+  (((c.slots.map (·.1)).mergeSort (· ≤ ·)).map (queuedOn c)).flatten
+
+theorem eq_of_nodup_map {α β : Type} {f : α → β} {l : List α} (h : (l.map f).Nodup) {a b : α}
+    (ha : a ∈ l) (hb : b ∈ l) (e : f a = f b) : a = b := by
+  induction l with
+  | nil => cases ha
+  | cons x r ih =>
+    simp only [List.map_cons, List.nodup_cons] at h
+    rcases List.mem_cons.mp ha with ea | ha'
+    · rcases List.mem_cons.mp hb with eb | hb'
+      · rw [ea, eb]
+      · exact absurd (List.mem_map.mpr ⟨b, hb', by rw [← e, ea]⟩) h.1
+    · rcases List.mem_cons.mp hb with eb | hb'
+      · exact absurd (List.mem_map.mpr ⟨a, ha', by rw [e, eb]⟩) h.1
+      · exact ih h.2 ha' hb'
+
+theorem lookupN_of_mem_nodup_keys {α : Type} {k : Nat} {v : α} {m : List (Nat × α)}
+    (hn : (m.map (·.1)).Nodup) (h : (k, v) ∈ m) : lookupN k m = some v := by
+  induction m with
+  | nil => cases h
+  | cons p r ih =>
+    obtain ⟨k', v'⟩ := p
+    simp only [List.map_cons, List.nodup_cons] at hn
+    rcases List.mem_cons.mp h with e | h
+    · cases e; rw [lookupN_cons, if_pos rfl]
+    · have : k' ≠ k := by
+        intro e; subst e
+        exact hn.1 (List.mem_map.mpr ⟨(k', v), h, rfl⟩)
+      rw [lookupN_cons, if_neg this]; exact ih hn.2 h
+
+/-- One channel: a queue of `.send`s is appended to the outbound data in order and emptied;
+    nothing else changes. -/
+theorem takeQueued_sends (fifo : List Msg) (c : Conn) (n : Nat) (slot : Slot)
+    (hslot : lookupN n c.slots = some slot) (hseal : c.sealed = false)
+    (hf : (getLink c slot.lid).fifo = fifo) (hsend : ∀ m ∈ fifo, ∃ b, m = .send b) :
+    ∃ c', takeQueued (fifo.length + 1) c n = (c', none) ∧
+      c'.out = c.out ++ (fifo.map Msg.sendBytes).flatten ∧
+      c'.sealed = false ∧ c'.slots = c.slots ∧ (getLink c' slot.lid).fifo = [] ∧
+      ∀ lid, lid ≠ slot.lid → getLink c' lid = getLink c lid := by
+  induction fifo generalizing c with
+  | nil =>
+    refine ⟨c, ?_, by simp, hseal, rfl, hf, fun _ _ => rfl⟩
+    rw [List.length_nil]
+    unfold takeQueued
+    simp only [hslot, popFifo_nil hf]
+  | cons m rest ih =>
+    obtain ⟨b, rfl⟩ := hsend m List.mem_cons_self
+    generalize hc2 : pushOut (setLink c slot.lid
+      { (getLink c slot.lid) with fifo := rest, src := (getLink c slot.lid).src.dec }) b = c2
+    have hslot2 : lookupN n c2.slots = some slot := by rw [← hc2, pushOut_slots]; exact hslot
+    have hseal2 : c2.sealed = false := by rw [← hc2, pushOut_sealed]; exact hseal
+    have hl2 : getLink c2 slot.lid =
+        { (getLink c slot.lid) with fifo := rest, src := (getLink c slot.lid).src.dec } := by
+      rw [← hc2, getLink_pushOut, getLink_setLink_self]
+    have hout2 : c2.out = c.out ++ b := by
+      rw [← hc2, pushOut_of_not_sealed (show (setLink c slot.lid _).sealed = false from hseal)]
+      rfl
+    have hsl2 : c2.slots = c.slots := by rw [← hc2, pushOut_slots]; rfl
+    obtain ⟨c', g1, g2, g3, g4, g5, g6⟩ := ih c2 hslot2 hseal2 (by rw [hl2])
+      (fun x hx => hsend x (List.mem_cons_of_mem _ hx))
+    refine ⟨c', ?_, ?_, g3, g4.trans hsl2, g5, fun lid hne => ?_⟩
+    · rw [List.length_cons]
+      unfold takeQueued
+      simp only [hslot, popFifo_cons hf]
+      have e : processPlainMessage (setLink c slot.lid
+          { (getLink c slot.lid) with fifo := rest, src := (getLink c slot.lid).src.dec }) n
+          (.send b) = (c2, none) := by rw [← hc2]; rfl
+      rw [e]
+      exact g1
+    · rw [g2, hout2, List.map_cons, List.flatten_cons, List.append_assoc]; rfl
+    · rw [g6 lid hne, ← hc2, getLink_pushOut, getLink_setLink_ne _ (fun e => hne e.symm)]
+
+/-- All channels of a list of distinct ids whose queues hold only `.send`s: the queues are
+    appended in the order of the list and emptied; nothing else changes. -/
+theorem takeAllQueued_sends (ids : List Nat) (c : Conn) (hseal : c.sealed = false) (hnd : ids.Nodup)
+    (hinj : ∀ n n' s s', lookupN n c.slots = some s → lookupN n' c.slots = some s' →
+      s.lid = s'.lid → n = n')
+    (hsend : ∀ n ∈ ids, ∀ s, lookupN n c.slots = some s →
+      ∀ m ∈ (getLink c s.lid).fifo, ∃ b, m = .send b) :
+    ∃ c', takeAllQueued c ids = (c', none) ∧ c'.out = c.out ++ (ids.map (queuedOn c)).flatten ∧
+      c'.sealed = false ∧ c'.slots = c.slots ∧
+      (∀ n ∈ ids, ∀ s, lookupN n c.slots = some s → (getLink c' s.lid).fifo = []) ∧
+      (∀ lid, (∀ n ∈ ids, ∀ s, lookupN n c.slots = some s → s.lid ≠ lid) →
+        getLink c' lid = getLink c lid) := by
+  induction ids generalizing c with
+  | nil => exact ⟨c, rfl, by simp, hseal, rfl, (fun _ hn => nomatch hn), fun _ _ => rfl⟩
+  | cons n more ih =>
+    have hnm : n ∉ more := (List.nodup_cons.mp hnd).1
+    have hnd' : more.Nodup := (List.nodup_cons.mp hnd).2
+    rw [takeAllQueued_cons]
+    cases hk : lookupN n c.slots with
+    | none =>
+      have e1 : takeQueued (qlen c n + 1) c n = (c, none) := by
+        unfold takeQueued; simp only [hk]
+      have e2 : queuedOn c n = [] := by unfold queuedOn; rw [hk]
+      obtain ⟨c', g1, g2, g3, g4, g5, g6⟩ := ih c hseal hnd' hinj
+        (fun n' hn' => hsend n' (List.mem_cons_of_mem _ hn'))
+      refine ⟨c', by rw [e1]; exact g1, ?_, g3, g4, fun n' hn' s hs => ?_, fun lid hl => ?_⟩
+      · rw [g2, List.map_cons, List.flatten_cons, e2, List.nil_append]
+      · rcases List.mem_cons.mp hn' with e | hn'
+        · subst e; rw [hk] at hs; cases hs
+        · exact g5 n' hn' s hs
+      · exact g6 lid (fun n' hn' => hl n' (List.mem_cons_of_mem _ hn'))
+    | some s =>
+      obtain ⟨c1, t1, t2, t3, t4, t5, t6⟩ := takeQueued_sends (getLink c s.lid).fifo c n s hk hseal rfl
+        (hsend n List.mem_cons_self s hk)
+      rw [qlen_of_slot hk, t1]
+      have hne : ∀ n' ∈ more, ∀ s', lookupN n' c.slots = some s' → s'.lid ≠ s.lid := by
+        intro n' hn' s' hs' e
+        have := hinj n' n s' s hs' hk e
+        subst this; exact hnm hn'
+      obtain ⟨c', g1, g2, g3, g4, g5, g6⟩ := ih c1 t3 hnd'
+        (fun a a' x x' => by rw [t4]; exact hinj a a' x x')
+        (fun n' hn' s' hs' => by
+          rw [t4] at hs'
+          rw [t6 _ (hne n' hn' s' hs')]
+          exact hsend n' (List.mem_cons_of_mem _ hn') s' hs')
+      have hq : more.map (queuedOn c1) = more.map (queuedOn c) := by
+        apply List.map_congr_left
+        intro n' hn'
+        unfold queuedOn
+        rw [t4]
+        cases hs' : lookupN n' c.slots with
+        | none => rfl
+        | some s' => dsimp only; rw [t6 _ (hne n' hn' s' hs')]
+      refine ⟨c', g1, ?_, g3, g4.trans t4, fun n' hn' s' hs' => ?_, fun lid hl => ?_⟩
+      · rw [g2, t2, hq, List.map_cons, List.flatten_cons, List.append_assoc]
+        congr 2
+        unfold queuedOn; rw [hk]
+      · rcases List.mem_cons.mp hn' with e | hn'
+        · subst e; rw [hk] at hs'; cases hs'
+          rw [g6 s.lid (fun n'' hn'' s'' hs'' => hne n'' hn'' s'' (t4 ▸ hs''))]
+          exact t5
+        · exact g5 n' hn' s' (by rw [t4]; exact hs')
+      · rw [g6 lid (fun n' hn' s' hs' => hl n' (List.mem_cons_of_mem _ hn') s' (t4 ▸ hs'))]
+        exact t6 lid (fun e => hl n List.mem_cons_self s hk e.symm)
+
+/-- The client's close request, with writes open, distinct channel ids and links, and only
+    `.send`s waiting: everything queued goes out first (ascending ids, FIFO order), then the Close;
+    writes are sealed; no error; every queue is empty afterwards. -/
+theorem close_writes_queued_first (c : Conn) (n : Nat) (buf : Bytes) (hseal : c.sealed = false)
+    (hkeys : (c.slots.map (·.1)).Nodup) (hlid : (c.slots.map (·.2.lid)).Nodup)
+    (hsend : ∀ p ∈ c.slots, ∀ m ∈ (getLink c p.2.lid).fifo, ∃ b, m = .send b) :
+    (processChannelMessage c n (.connectionClose buf)).2 = none ∧
+    (processChannelMessage c n (.connectionClose buf)).1.out = c.out ++ queuedAll c ++ buf ∧
+    (processChannelMessage c n (.connectionClose buf)).1.sealed = true ∧
+    ∀ p ∈ c.slots, (getLink (processChannelMessage c n (.connectionClose buf)).1 p.2.lid).fifo = [] := by
+  obtain ⟨c1, g1, g2, g3, _, g5, _⟩ := takeAllQueued_sends ((c.slots.map (·.1)).mergeSort (· ≤ ·)) c hseal
+    ((List.mergeSort_perm _ _).nodup_iff.mpr hkeys)
+    (fun a a' x x' hx hx' e => by
+      have := eq_of_nodup_map hlid (mem_of_lookupN hx) (mem_of_lookupN hx') e
+      exact congrArg Prod.fst this)
+    (fun a _ x hx => hsend (a, x) (mem_of_lookupN hx))
+  rw [processChannelMessage_close, g1]
+  refine ⟨rfl, ?_, rfl, fun p hp => ?_⟩
+  · show (sealOut (pushOut c1 buf)).out = _
+    rw [sealOut_out, pushOut_of_not_sealed g3, g2]; rfl
+  · obtain ⟨k, x⟩ := p
+    have := g5 k (List.mem_mergeSort.mpr (List.mem_map.mpr ⟨(k, x), hp, rfl⟩)) x
+      (lookupN_of_mem_nodup_keys hkeys hp)
+    show (getLink (sealOut (pushOut c1 buf)) x.lid).fifo = []
+    rw [show getLink (sealOut (pushOut c1 buf)) x.lid = getLink (pushOut c1 buf) x.lid from
+      getLink_congr rfl _, getLink_pushOut]
+    exact this
 
 end AmqModel.Conn
